@@ -258,7 +258,7 @@ pub struct RawOp {
 pub fn raw_op(bad_weight: f64) -> impl Strategy<Value = RawOp> {
     (
         any::<u16>(),
-        prop::option::weighted(bad_weight, 0u8..3),
+        if bad_weight > 0.0 { prop::option::weighted(bad_weight, 0u8..3).boxed() } else { Just(None::<u8>).boxed() },
         0u8..8,
         prop_oneof![Just(0u32), Just(1u32), 1u32..20, 20u32..400],
         0u8..12,
@@ -274,6 +274,8 @@ pub struct HistOpts {
     pub cts_from: u16, // fraction of the history after which non-zero cts may appear
     pub sync_mode: u8,
     pub size_mode: u8,
+    /// log2 of the budget for a track's duration in movie ticks (62 for C01/C02)
+    pub tick_bits: u32,
 }
 
 /// Assemble a history in the documented-valid domain (C01/C02/C14). Durations are adjusted by
@@ -323,7 +325,7 @@ pub fn assemble_history(major: [u8; 4], minor: u32, compat: Vec<[u8; 4]>, movie_
             _ => 1u32 << 31,
         };
         // keep track duration (in movie ticks) below 2^62
-        let limit: u128 = ((1u128 << 62) * ts as u128) / movie_ts.max(1) as u128;
+        let limit: u128 = (((1u128 << o.tick_bits) * ts as u128) / movie_ts.max(1) as u128).min(1u128 << o.tick_bits);
         if media_dur[ti] + dur as u128 > limit {
             dur = (limit.saturating_sub(media_dur[ti])).min(dur as u128) as u32;
         }
@@ -347,11 +349,15 @@ pub fn valid_track() -> impl Strategy<Value = MTrack> {
 
 /// histories in the documented-valid domain
 pub fn mux_history(max_tracks: usize, max_ops: usize, bad_weight: f64) -> impl Strategy<Value = MuxCase> {
+    mux_history_bits(max_tracks, max_ops, bad_weight, 62)
+}
+
+pub fn mux_history_bits(max_tracks: usize, max_ops: usize, bad_weight: f64, tick_bits: u32) -> impl Strategy<Value = MuxCase> {
     (
         (crate::gen::cc_strategy(), any::<u32>(), prop::collection::vec(crate::gen::cc_strategy(), 0..4), crate::gen::timescale_strategy()),
         prop::collection::vec(valid_track(), 1..=max_tracks),
         prop::collection::vec(raw_op(bad_weight), 0..=max_ops),
         (prop_oneof![Just(0u16), any::<u16>(), Just(u16::MAX)], 0u8..5, prop_oneof![4 => Just(0u8), 1 => Just(1u8), 1 => Just(2u8)]),
     )
-        .prop_map(|((major, minor, compat, ts), tracks, raw, (cts_from, sync_mode, size_mode))| assemble_history(major, minor, compat, ts, tracks, raw, &HistOpts { cts_from, sync_mode, size_mode }))
+        .prop_map(move |((major, minor, compat, ts), tracks, raw, (cts_from, sync_mode, size_mode))| assemble_history(major, minor, compat, ts, tracks, raw, &HistOpts { cts_from, sync_mode, size_mode, tick_bits }))
 }
